@@ -144,8 +144,11 @@ def entry_case(name, inner):
             sp = G.span(0)
             r = it.concretize(it.run_func(f, [sp]))
             notes = []
+            if [c[0] for c in seen['top']] != [inner]:
+                # the entry reaches its start symbol through something else (restructured entry): the obligation has no anchor
+                raise Inconclusive('%s calls %r, expected %s' % (name, seen['top'], inner))
             if seen['top'] != [(inner, 0)]:
-                notes.append('%s calls %r (expected exactly %s on its input span)' % (name, seen['top'], inner))
+                notes.append('%s does not hand its input span to %s (offset %s)' % (name, inner, seen['top'][0][1]))
             if seen['sub'] and not seen['sub'][0][1]:
                 s0 = seen['sub'][0]
                 notes.append('%s: the first sub-parser of %s (%s) runs on a thread state that is not the initial one (directive depth %d, keyword-version depth %d, memo entries %d)' % (
